@@ -105,11 +105,26 @@ def one_job(args):
     cpath = os.path.join(wd, "c%d_cut.raw" % case)
     for c in cuts:
         write_file(cpath, data[:c])
-        r = obs.run(exe, ([] if pipe else [cpath]) + argv_tail, stdin_path=cpath if pipe else None, workdir=wd, stats=None if view else "json", tag="c%dx" % case)
+        r = obs.run(exe, ([] if pipe else [cpath]) + argv_tail, stdin_path=cpath if pipe else None, workdir=wd, stats=None if view else "json", tag="c%dx" % case,
+                    timeout=40, allow_timeout=True)
         out["runs"] += 1
         out["cuts"] += 1
         what = None
         ab = r.abnormal()
+        if r.timeout:
+            # the watchdog only triggers the inspection: deadlock (no CPU progress, all threads asleep) or non-termination (CPU time beyond a bound
+            # proportional to the input) are violations of "terminates normally"; anything else is undecided
+            import procmon
+            bound = 20.0 + len(data) / 20000.0
+            o = procmon.run([exe] + ([] if pipe else [cpath]) + argv_tail, cwd=wd, stdin_data=data[:c] if pipe else None, env=dict(os.environ, TMPDIR=wd),
+                            watchdog=20, hard=400, cpu_limit=bound)
+            if o.hung:
+                ab = "no progress (deadlock) on the truncated input"
+            elif o.cpu_exceeded:
+                ab = "no termination: %.0f s of CPU time consumed on a %d byte input (bound %.0f s)" % (o.cpu_exceeded, c, bound)
+            else:
+                from common import Inconclusive
+                raise Inconclusive("watchdog fired for a truncated input (cut %d) but the re-run ended / was undecided" % c)
         # start of the incomplete final packet
         limit = 0
         for p in walk:
